@@ -15,7 +15,7 @@ from harness import core, env_common as ec
 LEVEL = "model_checking"
 
 RULE = ("TLC enumerates every (definition over the field kinds file/file/list/out/str with <= MaxFiles input "
-        "files, flag/bare, repeated-flag list) x directory assignment x copy mode x position order x root x "
+        "files and at most two file-bearing fields, flag/bare, repeated-flag list) x directory assignment x copy mode x position order x root x "
         "runtime; distinct = initial states of ContainerEnv_Gen; non-trivial = distinct (fields, root, runtime) "
         "with at least one remapped path")
 
@@ -24,12 +24,14 @@ def generate(ctx):
     if ctx.thorough:
         return ec.tlc_cases(ctx, "ContainerEnv_Gen", "c27",
                             dict(MaxFiles=3, CopyModesF={"any", "copy", "link"}, Orders={"fwd", "rev"},
-                                 Runtimes={"docker", "singularity"}, RootIds={1, 2, 3}, WithBlank=True),
+                                 Runtimes={"docker", "singularity"}, RootIds={1, 2, 3}, WithBlank=True,
+                                 ListWithF=True, ListPlain=False),
                             nshards=12, timeout=3000)
     return ec.tlc_cases(ctx, "ContainerEnv_Gen", "c27",
                         dict(MaxFiles=2, CopyModesF={"any", "copy", "link"}, Orders={"fwd", "rev"},
-                             Runtimes={"docker", "singularity"}, RootIds={1, 2, 3}, WithBlank=True),
-                        nshards=8)
+                             Runtimes={"docker", "singularity"}, RootIds={1, 2, 3}, WithBlank=True,
+                             ListWithF=False, ListPlain=True),
+                        nshards=6)
 
 
 def apply_verdicts(ctx, case, obs):
@@ -38,6 +40,10 @@ def apply_verdicts(ctx, case, obs):
             ctx.observe(v["note"], {"fields": case["c"]["fields"], "observed": v["observed"]})
         ctx.judge(v["ok"], f"{v['part']}: {v['what']}", case={"tlc": case}, expected=v["expected"],
                   observed=v["observed"], known_id=v["known_id"], asbuilt=v["asbuilt"])
+    if "image_token" in obs:
+        ctx.observe(f"{case['c']['rt']}: image argument written as NAME" + (":TAG" if ":" in obs["image_token"] else "")
+                    + f" (tag {'given' if case['c']['tag'] != 'latest' else 'defaulted'}); not judged",
+                    obs["image_token"])
     if obs.get("dup_binds"):
         ctx.observe("the same bind mount is given more than once", {"fields": case["c"]["fields"]})
     if case["open"] and "prefix" in obs:
@@ -76,8 +82,14 @@ def selftest(ctx, cases):
 
 
 def run(ctx):
+    import time
+
+    ec.isolate_hash_cache(ctx)
+    t0 = time.time()
     cases = generate(ctx)
+    t1 = time.time()
     selftest(ctx, cases)
+    t2 = time.time()
     ctx.rule = RULE
     ctx.exhaustive = True
     ctx.assume("no container runtime in the sandbox: pydra.environments.base.execute is replaced by a recorder "
@@ -86,7 +98,9 @@ def run(ctx):
     ctx.assume("bind/working-directory options are recognised by the runtimes' documented flags "
                "(-v/--volume, -w/--workdir; -B/--bind, --pwd); the order of options is not judged")
     groups = ec.c27_groups(cases)
-    res = core.pmap(ec.c27_run_group, [(g, str(ctx.scratch)) for g in groups], chunksize=2)
+    res = core.pmap(ec.c27_run_group, [(g, str(ctx.scratch)) for g in groups], procs=ec.workers(), chunksize=2)
+    t3 = time.time()
+    ctx.extra["phase_wall_s"] = {"tlc": round(t1 - t0, 1), "selftest": round(t2 - t1, 1), "replay": round(t3 - t2, 1)}
     n = 0
     for out in res:
         for case, obs in out:
@@ -109,6 +123,7 @@ def run(ctx):
 
 
 def replay(ctx, rec):
+    ec.isolate_hash_cache(ctx)
     case = rec["case"]["tlc"]
     (_, obs), = ec.c27_run_group(([case], str(ctx.scratch)))
     ctx.ran()
